@@ -9,7 +9,7 @@ PID = "C07"
 ANCHORS = ["pyoma2.functions.fdd:EFDD_mpe", "pyoma2.functions.fdd:SDOF_bellandMS", "pyoma2.functions.fdd:FDD_mpe", "pyoma2.algorithms.fdd:EFDD.mpe"]
 REQUIRED_MONITORS = ["truth@EFDD_mpe(EFDD)", "truth@EFDD_mpe(FSDD)", "scale-invariance(EFDD)", "scale-invariance(FSDD)", "truth@EFDD.mpe(class)", "truth@FSDD.mpe(class)"]
 ALL_STATES = [f"nxseg={n}" for n in (1024, 2048, 4096, 8192)] + ["xi<3%", "xi>4%", "fn<0.08fs", "fn>0.2fs", "bandwidth<6 lines", "same array object analysed twice with different content"]
-REQUIRED_STATES = ["nxseg=1024", "nxseg=2048", "nxseg=4096", "xi<3%", "xi>4%", "same array object analysed twice with different content"]
+REQUIRED_STATES = ["nxseg=1024", "nxseg=2048", "nxseg=4096", "xi<3%", "xi>4%", "same array object analysed twice with different content", "Fortran-ordered spectral matrix"]
 RULE = ("exactly the quantifier's class: analytic SDOF spectral density |H(f)|^2 phi phi^T + 1e-9 full-rank floor on the grid k fs/nxseg, fn in "
         "[0.04,0.25] fs, xi in [2,5] %, half-power bandwidth >= 4 lines, >= 30 periods in the half record, 2..6 channels, real shapes, "
         "DF2 in [4,10] bandwidths, default sppk/npmax/MAClim; oracle = the statement's numbers (MAC >= 0.999, 2.5 % frequency, 15 % damping) "
@@ -85,6 +85,9 @@ def run_function(ctx, rng):
     nxseg, fs, nch, fn, xi, df, bw, freq, phi, S, DF1, DF2 = draw(rng)
     info = f"[nxseg={nxseg} fs={fs:.4g} fn/fs={fn/fs:.3f} xi={xi:.4f} bw/df={bw/df:.1f} periods={fn*nxseg/2/fs:.0f} DF2/bw={DF2/bw:.1f} nch={nch}]"
     c = float(10 ** rng.uniform(-6, 6))
+    if rng.random() < 0.3:
+        S = np.asfortranarray(S)  # a legal memory layout (e.g. data loaded from a .mat file)
+        ctx.state("Fortran-ordered spectral matrix")
     for method in ("EFDD", "FSDD"):
         Sc = S.copy()
         Fn, Xi, Phi, _ = fdd.EFDD_mpe(S, freq, 1 / fs, [fn], "per", method=method, DF1=DF1, DF2=DF2)
